@@ -132,19 +132,36 @@ def run(prop, tier="quick", seed=0):
         return None
 
     refute = getattr(mod, "refute", None)
+    wit_cache = {}
+    seen_base = {}
     for ob in failed:
+        base = getattr(ob, "base", ob.name)
+        if base in seen_base:
+            seen_base[base].append(ob.name)      # other paths of an obligation already reported
+            continue
         wit = getattr(ob, "witness", None)
         if refute is not None and wit is None:
-            try:
-                wit = refute(uni, ob, replay_dir)
-            except Exception:      # noqa
-                wit = None
+            if ob.func in wit_cache:
+                wit = wit_cache[ob.func]
+            else:
+                try:
+                    wit = refute(uni, ob, replay_dir)
+                except Exception:      # noqa
+                    wit = None
+                wit_cache[ob.func] = wit
+        seen_base[base] = []
+        ob.other_paths = seen_base[base]
         k = is_known(ob.name, ob.detail or "")
         if k is not None:
             known_lines.append("KNOWN-FINDING: property=%s %s" % (prop, k["what"]))
             continue
         violations.append(("obligation", ob, wit))
     for e in failed_extras:
+        if e.witness is None and hasattr(mod, "refute_extra"):
+            try:
+                e.witness = mod.refute_extra(uni, e)
+            except Exception:      # noqa
+                pass
         k = is_known(e.name, e.detail or "")
         if k is not None:
             known_lines.append("KNOWN-FINDING: property=%s %s" % (prop, k["what"]))
@@ -242,7 +259,8 @@ def run(prop, tier="quick", seed=0):
             path = os.path.join(replay_dir, fname)
             rec = {"property": prop, "failed_obligation": name, "kind": kind}
             if kind == "obligation":
-                rec.update({"status": item.status, "backend": item.backend, "verifier_output": item.detail,
+                rec.update({"other_failing_paths": getattr(item, "other_paths", []),
+                            "status": item.status, "backend": item.backend, "verifier_output": item.detail,
                             "goal": str(item.goal)[:2000], "function": item.func, "line": item.line})
             elif kind == "extra":
                 rec.update({"detail": item.detail, "backend": item.backend})
